@@ -93,6 +93,15 @@ def gen_kind(rng, lookups=False):
         if "arr" in f:
             xs = [rng.choice(ARRS)]
         return ["call", xs, f, args, kw]
+    if lookups and c < 0.8:
+        # an implicit solve (oracle-only stream: executed by the reference solver of lang.implicit_mixin);
+        # the unknown is deliberately also an ordinary variable of the store and may occur in the guess
+        sv = rng.choice(["x", "y", "sv"])
+        gs = lang.Gen(rng, INTS + [sv], ARRS, FLAGS, FUNCS)
+        expr = ["nary", "sum", [["var", sv], gs.int_expr(2)]]
+        guess = rng.choice([["var", sv], gs.int_expr(1), ["int", 1]])
+        params = [["guess", guess]] + ([["tol", g.int_expr(1)]] if rng.random() < 0.3 else [])
+        return ["implicit", [rng.choice(["z", "w", "<state>u", sv])], [sv], [expr], params, "newton"]
     if c < 0.87:
         return ["yield", rng.choice(["y", "u"]), rng.choice(["final", "t1"]),
                 rng.choice([["var", "<t>"], g.int_expr(1)]),
@@ -167,6 +176,8 @@ def gen_cases(tier, seed):
     for i in range(n):
         lk = (i % 6 == 5)        # every sixth case may contain attribute lookups (oracle only)
         st, c, k = gen_store(rng), gen_cond(rng, lk), gen_kind(rng, lk)
+        if k[0] == "implicit" and rng.random() < 0.4:
+            c = ["bin", "gt", ["var", k[2][0]], ["int", rng.randint(-1, 2)]]     # the guard reads the unknown's name
         if k[0] == "nop":
             c = ["bool", True]     # dagrt.language.Nop carries no condition
         # numpy gives `a[None]` (an unset index variable) a meaning of its own (newaxis): keep
@@ -202,6 +213,12 @@ def universe(store, cond, kind):
             u |= lang.expr_vars(e)
     elif kind[0] == "yield":
         u |= lang.expr_vars(kind[3]) | lang.expr_vars(kind[4])
+    elif kind[0] == "implicit":
+        u |= set(kind[1]) | set(kind[2])
+        for e in kind[3]:
+            u |= lang.expr_vars(e)
+        for _, e in kind[4]:
+            u |= lang.expr_vars(e)
     return sorted(u)
 
 
@@ -212,7 +229,7 @@ def run_impl(store, cond, kind):
     from pymbolic.mapper import IdentityMapper
     stmt = lang.kind_to_real(kind, cond=cond, sid="s0")
     code = DAGCode({"p": ExecutionPhase("p", "p", frozenset([Nop(id="n")]))}, "p")
-    interp = NumpyInterpreter(code, lang.function_map(FUNCS))
+    interp = lang.implicit_mixin(NumpyInterpreter)(code, lang.function_map(FUNCS))
     ctx = lang.RecDict({k: lang.val_to_py(v) for k, v in store.items()})
     ctx.log = []
     interp.context = ctx
@@ -283,7 +300,7 @@ def where(kind, variables):
 
 def has_lookup(c):
     t = json.dumps([c[1], c[2]])
-    return '"lookup"' in t or '"nparr"' in t
+    return '"lookup"' in t or '"nparr"' in t or c[2][0] == "implicit"
 
 
 def in_model_universe(store, r):
